@@ -673,6 +673,64 @@ def part_F(tier):
     return agg
 
 
+# --------------------------------------------------------------------------- part G: every render receives fresh values
+G_FORMS = ('a=[1, "x"]', 'a={"k": 1}', 'a=[[1], {"k": [2]}]', 'a=[1, v]', 'a=[*[1, 2]]', 'a={**{"k": [1]}}', '...{"k": [1]}', '[1, 2] {"k": []}', 'a=[_("t")]', "a=[]", "a={}")
+
+
+def _mutate(x):
+    if isinstance(x, list):
+        for y in x:
+            _mutate(y)
+        x.append("MUT")
+    elif isinstance(x, dict):
+        for y in list(x.values()):
+            _mutate(y)
+        x["MUT"] = 1
+
+
+def part_G(tier):
+    """A list / dict literal denotes a NEW value every time the tag is rendered: the receiver of the first render may do to its
+    arguments what it likes (here: it appends to every list and adds a key to every dict it received), the second render of the same
+    tag node receives what the literal says.  Routes: the same Template object rendered twice; one template, the tag in a loop of 2."""
+    import copy
+
+    from django.template import Context, Template
+
+    st = _setup()
+    rec = st["rec"]
+    agg = par.Agg()
+    for seam in ("component", "node"):
+        for form in G_FORMS:
+            for route in ("template-twice", "loop"):
+                tag = ('{%% component "probe" %s / %%}' if seam == "component" else "{%% probe %s / %%}") % form
+                src = tag if route == "template-twice" else "{% for q in two %}" + tag + "{% endfor %}"
+                agg.states += 1
+                agg.nontrivial += 1
+                agg.expected[route] += 1
+                got = []
+                try:
+                    t = Template(src)
+                    for _ in range(2 if route == "template-twice" else 1):
+                        del rec[:]
+                        t.render(Context({"v": "V", "two": [1, 2], "c02_sentinel": SENTINEL}))
+                        for r in rec:
+                            got.append(copy.deepcopy((r[0], r[1])))
+                            _mutate(list(r[0]))
+                            _mutate(r[1])
+                        agg.transitions += 1
+                except Exception as e:  # noqa
+                    got = ["%s: %s" % (type(e).__name__, str(e)[:100])]
+                agg.validated += 1
+                agg.observe((seam, form, route, repr(got)[:200]))
+                ok = len(got) == 2 and got[0] == got[1] and "MUT" not in repr(got)
+                if not ok:
+                    agg.fail("G:stale-literal:%s:%s:%s" % (seam, form, route),
+                             "[%s seam, %s] `%s`: the two renders received %r - a receiver that changed its arguments in the first render must not be seen by the second"
+                             % (seam, route, src, got), {"part": "G", "src": src, "seam": seam, "route": route})
+    boot.clear_render_registries()
+    return agg
+
+
 def run(ctx):
     ev, fnd = ctx.ev, ctx.fnd
     marker = MARKERS[ctx.seed % len(MARKERS)]
@@ -688,6 +746,11 @@ def run(ctx):
                 observed_distinct=len(f.observed), expected=f.expected, bound={"value_forms": list(F_VALUE_FORMS), "flags": ["only", "default", "required"], "seams": ["component", "node", "slot"]},
                 samples=[{"src": '{% component "probe" k=only only / %}', "ctx": {"only": "W1"}}])
     fnd.merge_reports(f.failures[:20])
+    gg = part_G(ctx.tier)
+    ev.add_part("fresh_values_per_render", states=gg.states, transitions=gg.transitions, validated=gg.validated, nontrivial=gg.nontrivial,
+                observed_distinct=len(gg.observed), expected=gg.expected, bound={"forms": list(G_FORMS), "routes": ["template-twice", "loop"], "seams": ["component", "node"]},
+                samples=[{"src": '{% component "probe" a=[1, "x"] / %}', "expect": "both renders receive [1, 'x']"}])
+    fnd.merge_reports(gg.failures[:20])
     W = par.NWORKERS
     results = par.run_tasks(_worker_task, [(w, W, (ctx.tier, marker)) for w in range(W)])
     total = {}
@@ -736,6 +799,12 @@ def _selftest(tier, marker):
 
 
 def replay(ctx, case):
+    if case.get("part") == "G":
+        _setup()
+        gg = part_G("quick")
+        for x in gg.failures[:8]:
+            print(x[1])
+        return not gg.failures
     if case.get("part") == "F":
         _setup()
         f = part_F("quick")
